@@ -31,10 +31,13 @@ B = [
         (SQ, "        # First, upsert events with id's set\n        events_upsert = [e for e in events if e.id is not None]\n        for e in events_upsert:\n            self.replace(bucket_id, e.id, e)\n\n", ""),
         (SQ, "        self.conn.executemany(query, event_rows)\n        self.conditional_commit(len(event_rows))", "        self.conn.executemany(query, event_rows)\n        self.conditional_commit(len(event_rows))\n\n        # Then, upsert events with id's set\n        events_upsert = [e for e in events if e.id is not None]\n        for e in events_upsert:\n            self.replace(bucket_id, e.id, e)"),
     ]),
+    # not benign for C14: after a migration the last bucket's events then stay buffered across "served reads, exited
+    # without shutdown" -- C14 is expected to report it, every other check must stay silent
     ("reads_do_not_flush", [
         (SQ, "            limit = -1\n        self.commit()\n        c = self.conn.cursor()", "            limit = -1\n        c = self.conn.cursor()"),
-    ]),
-    ("sqlite_name_defaults_to_id", [(SQ, "            [\n                bucket_id,\n                name,\n                type_id,", "            [\n                bucket_id,\n                name or bucket_id,\n                type_id,")]),
+    ], {"exclude": ["C14"]}),
+    # C14 compares the migrated metadata with the legacy store's (name None there): excluded
+    ("sqlite_name_defaults_to_id", [(SQ, "            [\n                bucket_id,\n                name,\n                type_id,", "            [\n                bucket_id,\n                name or bucket_id,\n                type_id,")], {"exclude": ["C14"]}),
     ("memory_name_none", [(MEM, "        if not name:\n            name = bucket_id\n", "")]),
     ("peewee_wal", [(PW, "_db = SqliteExtDatabase(None)", "_db = SqliteExtDatabase(None, pragmas={'journal_mode': 'wal'})")]),
     ("get_rounds_start_only_when_needed", [(DS, "        if starttime:\n            starttime = starttime.replace(", "        if starttime and starttime.microsecond % 1000:\n            starttime = starttime.replace(")]),
@@ -47,7 +50,9 @@ def main():
     out = os.path.join(VERIF, "benign")
     os.makedirs(out, exist_ok=True)
     index = []
-    for name, reps in B:
+    for entry in B:
+        name, reps = entry[0], entry[1]
+        opts = entry[2] if len(entry) > 2 else {}
         files = {}
         if reps == "SED":
             src = subprocess.run(["git", "-C", "/repo", "show", "HEAD:" + SQ], capture_output=True, text=True, check=True).stdout
@@ -70,7 +75,7 @@ def main():
             diff += "".join(difflib.unified_diff(src.splitlines(True), dst.splitlines(True), "a/" + path, "b/" + path))
         with open(os.path.join(out, name + ".patch"), "w") as f:
             f.write(diff)
-        index.append({"name": name})
+        index.append(dict({"name": name}, **opts))
     json.dump(index, open(os.path.join(out, "index.json"), "w"), indent=1)
     print("wrote %d benign refactors" % len(index))
 
